@@ -210,6 +210,37 @@ def _inv(ctx, res, op, normalised=None, clean_operands=False):
     if normalised is not None:
         p = LM.normalised(res, combined=(normalised == "combined"))
         ctx.check("inv.normalised", p is None, key=(op,), op=op, problem=p, result=repr(res)[:200])
+    _as_literal(ctx, res, op)
+
+
+def _as_literal(ctx, res, op):
+    """Provenance: a multi-block location that an operation returned is a location like any other - whatever is asked of it next has the
+    answer that the same blocks written down with the constructor give (half of the results, chosen by their content)."""
+    if type(res).__name__ != "CompoundInterval":
+        return
+    bl = LM.blocks_of(res)
+    if len(bl) < 2 or (sum(a + b for a, b in bl) + len(bl)) % 2:
+        return
+    from inscripta.biocantor.location.location_impl import CompoundInterval
+
+    twin, e = ctx.call(CompoundInterval, [b[0] for b in bl], [b[1] for b in bl], res.strand, parent=res.parent)
+    if e is not None:
+        return
+
+    def panel(x):
+        out = {}
+        for name, fn in (("is_overlapping", lambda: x.is_overlapping), ("num_blocks", lambda: x.num_blocks),
+                         ("merge_overlapping", lambda: LM.blocks_of(x.merge_overlapping())), ("optimize_blocks", lambda: LM.blocks_of(x.optimize_blocks())),
+                         ("optimize_and_combine_blocks", lambda: LM.blocks_of(x.optimize_and_combine_blocks())),
+                         ("gap_list", lambda: [(g.start, g.end) for g in x.gap_list()]), ("len", lambda: len(x))):
+            r, ex = ctx.call(fn)
+            out[name] = ("raised", type(ex).__name__) if ex is not None else ("value", r)
+        return out
+
+    a, b = panel(res), panel(twin)
+    bad = [k for k in b if a[k] != b[k]]
+    ctx.check("inv.result-as-literal", not bad, key=(op, tuple(bad[:2])), op=op, blocks=[list(x) for x in bl], strand=res.strand.to_symbol(),
+              differing={k: [repr(a[k])[:120], repr(b[k])[:120]] for k in bad[:3]})
 
 
 def _set(res):
